@@ -143,6 +143,7 @@ type ClientSpec struct {
 	Cand        []CandOp    `json:"cand,omitempty"` // non-conformant upgrade candidate script (C08)
 	CandAtMs    int         `json:"candAt,omitempty"`
 	CandKind    string      `json:"candKind,omitempty"`
+	AbortHS     bool        `json:"abortHandshake,omitempty"` // the client gives up while its handshake request is being served
 	Retry       bool        `json:"retry,omitempty"` // after a failed candidate, try a conformant upgrade later
 	RetryAtMs   int         `json:"retryAt,omitempty"`
 }
